@@ -129,6 +129,23 @@ def execute(ctx, calls, order, case):
     lost = False
     rserial = [1000]
 
+    # replies of several calls (in whatever byte order each peer uses) may arrive in ONE read
+    coalesce = (len(order) * 7 + len(calls) + sum(len(c.token) for c in calls)) % 3 == 0
+    hold = []
+
+    def emit(raw):
+        if coalesce:
+            hold.append(raw)
+        else:
+            peer.send(raw)
+
+    def flush():
+        if hold:
+            data = b''.join(hold)
+            del hold[:]
+            ctx.count('coalesced_reply_reads')
+            peer.send(data)
+
     def inject(c, kind):
         rserial[0] += 1
         sig, build, conv = BODIES[c.body_kind]
@@ -163,11 +180,12 @@ def execute(ctx, calls, order, case):
             raw = RM.build(RM.ERROR, rserial[0], {'reply_serial': c.serial, 'sender': ':1.7',
                                                   'error_name': 'org.verif.Err%d' % c.idx},
                            esig, ebody, c.little, extra_fields=extra, field_order=order_)
-        peer.send(raw)
+        emit(raw)
 
     now = [0.0]
     for who, ev in order:
         if who == 'X':
+            flush()
             if not lost:
                 lost = True
                 peer.lose(loss_reason)
@@ -188,8 +206,8 @@ def execute(ctx, calls, order, case):
                 raw = RM.build(RM.METHOD_RETURN, rserial[0], {'reply_serial': stray}, 's', ['stray'])
             else:
                 raw = RM.build(RM.ERROR, rserial[0], {'reply_serial': stray,
-                                                      'error_name': 'org.verif.Stray'}, 's', ['stray'])
-            peer.send(raw)
+                                                      'error_name': 'org.verif.Stray'}, 's', ['stray'], rserial[0] % 2 == 0)
+            emit(raw)
             ctx.count('unsolicited_injected')
             continue
         c = calls[who]
@@ -208,6 +226,7 @@ def execute(ctx, calls, order, case):
             inject(c, 'error')
             decided.setdefault(c.idx, ('error', None))
         elif ev == 'T':
+            flush()
             if c.timeout:
                 # deadlines are distinct per call: advance virtual time just past this one
                 target = c.timeout + 0.001
@@ -228,15 +247,19 @@ def execute(ctx, calls, order, case):
             ctx.report('crash', 'connection crashed with %r while delivering event %r of call %r' % (
                 peer.ep.crashes[0], ev, who), w, case)
             break
-        # quiescence invariant: live timers == undecided calls with a deadline
+        # quiescence invariant: live timers == undecided calls with a deadline (once everything sent has been read)
         live = len([dc for dc in CLOCK.getDelayedCalls() if dc.active()])
         want = len([o for o in calls if o.timeout and o.idx not in decided])
-        if live != want:
+        if live != want and not hold:
             w['live_timers'] = live
             w['expected_timers'] = want
             ctx.report('timer-leak', 'after event (%r,%r): %d live timers, %d undecided calls with a deadline' % (
                 who, ev, live, want), w, case)
             break
+    flush()
+    if peer.ep.crashes and 'crash' not in w:
+        w['crash'] = repr(peer.ep.crashes[0])
+        ctx.report('crash', 'connection crashed with %r while reading coalesced replies' % (peer.ep.crashes[0],), w, case)
     # end: lose the connection so that everything must have completed
     if not lost:
         peer.lose(loss_reason)
